@@ -57,8 +57,8 @@ PosCases(r, ctx) ==
         b  \in IF "body" \in r.args THEN BodyValid \cup BodyInvalid
                ELSE IF "multipart" \in r.args THEN MpartValid \cup MpartInvalid ELSE {"na"},
         mn \in Pick(r, "mname", MnameValid, "na"),
-        l  \in Pick(r, "local", LocalVals, "absent"),
-        f  \in Pick(r, "filter", FilterValid \cup FilterInvalid, "absent"),
+        l  \in Pick(r, "local", LocalVals \cup LocalLenient, "absent"),
+        f  \in Pick(r, "filter", FilterValid \cup FilterInvalid \cup FilterLenient, "absent"),
         an \in AnsSet(r)}
 
 \* ---- pin options ----------------------------------------------------------
@@ -108,14 +108,16 @@ RouteCases(r, level) ==
 \* ---- the bundled client ---------------------------------------------------
 ClientRoutes == Routes
 ClientCtx == {<<"open", "missing">>, <<"auth", "right">>, <<"auth", "right2">>, <<"auth", "missing">>,
-              <<"auth", "wrongpass">>, <<"auth", "wronguser">>}
+              <<"auth", "wrongpass">>, <<"auth", "wronguser">>, <<"auth", "unknownempty">>, <<"auth", "emptypass">>,
+              <<"auth", "swapped">>}
 \* option values a caller can express with api.PinOptions
 ClientOpt(n) ==
-    CASE n = "name" -> {"absent", "plain", "special"} [] n = "mode" -> {"absent", "direct"}
-      [] n = "rmin" -> {"absent", "two", "neg"} [] n = "rmax" -> {"absent", "three", "neg"}
-      [] n = "repl" -> {"absent"} [] n = "shard" -> {"absent", "k1024"} [] n = "ualloc" -> {"absent", "one", "two"}
-      [] n = "expire" -> {"absent", "at"} [] n = "meta" -> {"absent", "one", "two"}
-      [] n = "update" -> {"absent", "v0"} [] n = "origins" -> {"absent", "one", "two"}
+    CASE n = "name" -> {"absent", "plain", "special", "ws"} [] n = "mode" -> {"absent", "direct"}
+      [] n = "rmin" -> {"absent", "two", "neg", "zero", "negtwo"} [] n = "rmax" -> {"absent", "three", "neg", "zero"}
+      [] n = "repl" -> {"absent"} [] n = "shard" -> {"absent", "k1024", "big"}
+      [] n = "ualloc" -> {"absent", "one", "two", "qm", "dup"}
+      [] n = "expire" -> {"absent", "at", "atfrac", "atpast"} [] n = "meta" -> OptValid("meta")
+      [] n = "update" -> {"absent", "v0", "v1"} [] n = "origins" -> {"absent", "one", "two", "onlyp2p"}
 ClientPairs == PairsOver(BaseO, ClientOpt)
 ClientFull == [FullO EXCEPT !["expire"] = "at"]
 
@@ -124,18 +126,19 @@ ClientAddSingles == UNION {{[BaseA EXCEPT ![n] = c] : c \in AddOptValid(n)} : n 
 
 ClientCases(r) ==
     {[CanonR(r) EXCEPT !.via = "client", !.cfg = ctx[1], !.cred = ctx[2], !.cid = c, !.path = p, !.mname = mn,
-                       !.local = l, !.filter = f, !.ans = an] :
+                       !.peer = pe, !.local = l, !.filter = f, !.ans = an] :
         ctx \in ClientCtx,
-        c  \in Pick(r, "cid", CidValid, "na"),
+        c  \in Pick(r, "cid", {"v0", "v1"}, "na"),
+        pe \in Pick(r, "peer", {"valid", "qm"}, "na"),
         p  \in Pick(r, "path", PathValid \cup PathInvalid, "na"),
         mn \in Pick(r, "mname", MnameValid, "na"),
         l  \in Pick(r, "local", {"true", "false"}, "absent"),
-        f  \in Pick(r, "filter", FilterValid, "absent"),
+        f  \in Pick(r, "filter", {"absent", "valid", "multi", "composite"}, "absent"),
         an \in AnsSet(r)}
     \cup (IF r.name \in {"Pin", "PinPath"}
             THEN {[CanonR(r) EXCEPT !.via = "client", !.o = o, !.cid = IF "cid" \in r.args THEN c ELSE @,
                                     !.path = IF "path" \in r.args THEN p ELSE @] :
-                    o \in ClientPairs \cup {ClientFull}, c \in CidValid, p \in {"ipfs", "ipnssub"}}
+                    o \in ClientPairs \cup {ClientFull}, c \in {"v0", "v1"}, p \in {"ipfs", "ipnssub"}}
             ELSE {})
     \cup (IF r.name = "Add"
             THEN {[CanonR(r) EXCEPT !.via = "client", !.o = o, !.a = a] :
